@@ -162,7 +162,6 @@ type run struct {
 	activated  int
 	aborted    bool // a known finding was reproduced: the model cannot follow any further
 	classes    map[string]int
-	shrinkSafe bool
 }
 
 func (r *run) class(name string) { r.classes[name]++ }
@@ -242,6 +241,11 @@ func (r *run) do(txn *transaction.Transaction, what string) bool {
 		r.t.Fatalf("%s", err.Error())
 	}
 	ok := !o.Rejected && !o.Failed
+	if os.Getenv("VERIF_C38_DEBUG") != "" && r.cf.MaxN != 0 {
+		if g, _ := simminer.GlobalOf(r.h.Cur.B); g != nil && g.MaxN != r.cf.MaxN {
+			r.harness("DEBUG after %s: max_n in the trie is %d, the case set %d", what, g.MaxN, r.cf.MaxN)
+		}
+	}
 	p, ph := r.phaseNode()
 	if p.Stored && (ph != r.m.phase || p.StartRound != r.m.start || p.Restarts != r.m.restarts) {
 		r.violation("phase-changed-outside-payfees", "%s (accepted=%v) changed the phase node to %s start=%d restarts=%d; before: %s start=%d restarts=%d",
@@ -341,7 +345,17 @@ func (r *run) closeBlock() {
 		}
 	}
 	regM, _ := r.registered()
+	if os.Getenv("VERIF_C38_DEBUG") != "" {
+		if g, _ := simminer.GlobalOf(r.h.Cur.B); g != nil && g.MaxN != r.cf.MaxN {
+			r.harness("DEBUG before payFees of round %d: max_n in the trie is %d, the case set %d", round, g.MaxN, r.cf.MaxN)
+		}
+	}
 	o, err := r.h.Do(simminer.PayFees(r.h))
+	if os.Getenv("VERIF_C38_DEBUG") != "" {
+		if g, _ := simminer.GlobalOf(r.h.Cur.B); g != nil && g.MaxN != r.cf.MaxN {
+			r.harness("DEBUG after payFees of round %d: max_n in the trie is %d, the case set %d", round, g.MaxN, r.cf.MaxN)
+		}
+	}
 	if err != nil {
 		r.t.Fatalf("%s", err.Error())
 	}
@@ -1184,6 +1198,11 @@ func TestC38_ViewChangePhases(t *testing.T) {
 		if err := s.Chain.VerifResetMagicBlocks(s.Genesis); err != nil {
 			t.Fatalf("VERIF-HARNESS-ERROR reset: %v", err)
 		}
+		// Every case starts with an empty state cache (a node that was just started). The chain's state cache is keyed by block
+		// hash and skips the commit of a hash it has seen; cases (and rapid's shrink attempts) that share their first blocks
+		// would otherwise read each other's entries - observed: a payFees that loaded the shipped global node from an entry of
+		// an earlier attempt and saved it over the case's settings.
+		s.Chain.SetupStateCache()
 		r := &run{t: t, st: st, w: w, s: s, classes: map[string]int{}}
 		m := &model{prevM: setOf(s.Miners), prevS: setOf(s.Sharders)}
 		m.resetDKG()
@@ -1201,9 +1220,8 @@ func TestC38_ViewChangePhases(t *testing.T) {
 		for _, v := range append(append([]*vnode{}, w.Miners...), w.Sharders...) {
 			r.h.Know(v.Delegate.ID, v.Delegate.Name)
 		}
-		// The phase lengths are node configuration, not chain state: two cases that differ only in them would build blocks
-		// with identical hashes but different states, and the chain's process-wide state cache is keyed by block hash.
-		// A first transaction that names them keeps the block hashes of different cases apart.
+		// The phase lengths are node configuration, not chain state: a first transaction that names them puts them into the
+		// history (and keeps the block hashes of cases that differ only in them apart).
 		if o, err := r.h.Do(r.h.Tx(s.Owner, s.Clients[7].ID, 1, 0, transaction.TxnTypeSend, fmt.Sprintf("verif C38 phase rounds %v", m.rounds))); err != nil || o.Rejected || o.Failed {
 			t.Fatalf("VERIF-HARNESS-ERROR marker transaction: %+v %v", o, err)
 		}
